@@ -55,15 +55,14 @@ theorem getUnique_query (r : SigV2Spec.Req) (n : Bytes) :
 theorem commaJoin_single (v : Bytes) : SigV2Spec.commaJoin [v] = v := by
   simp [SigV2Spec.commaJoin]
 
-/-- a positional header that occurs at most once -/
-theorem positional_eq (r : SigV2Spec.Req) (n : Bytes) (h : (SigV2Spec.fieldValues r n).length ≤ 1) :
-    (getUnique (implHeaders r) n).getD [] = SigV2Spec.positional r n := by
-  rw [getUnique_implHeaders]
-  unfold SigV2Spec.positional
-  match hv : SigV2Spec.fieldValues r n with
-  | [] => rfl
-  | [v] => simp [theOnly, commaJoin_single]
-  | _ :: _ :: _ => rw [hv] at h; simp at h
+theorem joinValues_eq (vs : List Bytes) : joinValues vs = SigV2Spec.commaJoin vs := by
+  cases vs <;> rfl
+
+/-- a positional header, however often it occurs: the comma-joined field of the document -/
+theorem positional_eq (r : SigV2Spec.Req) (n : Bytes) :
+    joinValues (getAll (implHeaders r) n) = SigV2Spec.positional r n := by
+  rw [getAll_implHeaders, joinValues_eq]
+  rfl
 
 /-! ## CanonicalizedAmzHeaders -/
 
@@ -445,12 +444,6 @@ theorem subres_eq (r : SigV2Spec.Req) :
 
 /-! ## the string to sign -/
 
-/-- Content-MD5, Content-Type and (header authentication) Date occur at most once — the complement is
-    finding class `positional-header-repeated` -/
-def positionalOnce (mode : SigV2Spec.Mode) (r : SigV2Spec.Req) : Bool :=
-  (SigV2Spec.fieldValues r (sp!"content-md5")).length ≤ 1 && (SigV2Spec.fieldValues r (sp!"content-type")).length ≤ 1
-    && (mode = .query || (SigV2Spec.fieldValues r (sp!"date")).length ≤ 1)
-
 /-- header authentication: x-amz-date occurs at most once — the complement is finding class
     `xamzdate-repeated` -/
 def xAmzDateOnce (mode : SigV2Spec.Mode) (r : SigV2Spec.Req) : Bool :=
@@ -463,7 +456,7 @@ def expiresOnce (mode : SigV2Spec.Mode) (r : SigV2Spec.Req) : Bool :=
 
 /-- the region on which model and specification build the same string to sign -/
 def wf (mode : SigV2Spec.Mode) (r : SigV2Spec.Req) : Bool :=
-  valuesVisible r && positionalOnce mode r && xAmzDateOnce mode r && expiresOnce mode r
+  valuesVisible r && xAmzDateOnce mode r && expiresOnce mode r
 
 theorem theOnly_getD_of_le_one (vs : List Bytes) (h : vs.length ≤ 1) :
     (theOnly vs).getD [] = SigV2Spec.commaJoin vs := by
@@ -478,16 +471,20 @@ theorem theOnly_isSome_of_le_one (vs : List Bytes) (h : vs.length ≤ 1) :
   | [v], _ => rfl
 
 theorem dateLine_eq (mode : SigV2Spec.Mode) (r : SigV2Spec.Req)
-    (h1 : positionalOnce mode r = true) (h2 : xAmzDateOnce mode r = true) (h3 : expiresOnce mode r = true) :
+    (h2 : xAmzDateOnce mode r = true) (h3 : expiresOnce mode r = true) :
     dateLine (implMode mode) (implQs r) (implHeaders r) = SigV2Spec.dateElement mode r := by
   cases mode with
   | header =>
-    simp only [positionalOnce, xAmzDateOnce, Bool.and_eq_true, Bool.or_eq_true, decide_eq_true_eq,
-      reduceCtorEq, false_or] at h1 h2
-    simp only [implMode, dateLine, SigV2Spec.dateElement, getUnique_implHeaders]
-    rw [theOnly_isSome_of_le_one _ h2, theOnly_getD_of_le_one _ h1.2]
-    unfold SigV2Spec.positional
-    cases SigV2Spec.fieldValues r (sp!"x-amz-date") <;> simp
+    simp only [xAmzDateOnce, Bool.or_eq_true, decide_eq_true_eq, reduceCtorEq, false_or] at h2
+    simp only [implMode, dateLine, SigV2Spec.dateElement, getUnique_implHeaders, positional_eq]
+    have h := theOnly_isSome_of_le_one _ h2
+    cases hx : SigV2Spec.fieldValues r (sp!"x-amz-date") with
+    | nil => simp [theOnly]
+    | cons x xs =>
+      rw [hx] at h
+      cases ho : theOnly (x :: xs) with
+      | none => rw [ho] at h; simp at h
+      | some v => simp
   | query =>
     simp only [expiresOnce, Bool.or_eq_true, decide_eq_true_eq, reduceCtorEq, false_or] at h3
     simp only [implMode, dateLine, SigV2Spec.dateElement, implQs, Option.bind_some, getUnique_query]
@@ -501,13 +498,10 @@ theorem resource_eq (r : SigV2Spec.Req) :
 theorem stsImpl_eq_stsSpec (mode : SigV2Spec.Mode) (r : SigV2Spec.Req) (h : wf mode r = true) :
     stsImpl mode r = stsSpec mode r := by
   simp only [wf, Bool.and_eq_true] at h
-  obtain ⟨⟨⟨hv, hp⟩, hx⟩, he⟩ := h
-  have hp' := hp
-  simp only [positionalOnce, Bool.and_eq_true, decide_eq_true_eq] at hp'
+  obtain ⟨⟨hv, hx⟩, he⟩ := h
   unfold stsImpl stsSpec SigV2Spec.stringToSign SigV2Spec.render SigV2Spec.view stringToSign
   simp only []
-  rw [positional_eq r _ hp'.1.1, positional_eq r _ hp'.1.2, dateLine_eq mode r hp hx he, amzBlock_eq r hv,
-    resource_eq]
+  rw [positional_eq r, positional_eq r, dateLine_eq mode r hx he, amzBlock_eq r hv, resource_eq]
   rfl
 
 /-- without a query (`qs = None`) the code computes what it computes for an empty one -/
